@@ -164,7 +164,33 @@ func c27b() {
 	show(e, "after failover")
 }
 
+func c12b() {
+	for _, recreate := range []bool{false, true} {
+		root, _ := os.MkdirTemp("", "p12b-")
+		e := storex.NewEnv(root, true, 4)
+		t2, _ := e.NewTxn(ctx, sop.ForWriting, time.Minute, nil)
+		t2.T.Begin(ctx)
+		storex.NewBtree(ctx, t2, "sc", storex.Opts{Slot: 4, Unique: true})
+		t3, _ := e.NewTxn(ctx, sop.ForWriting, time.Minute, nil)
+		t3.T.Begin(ctx)
+		b3, err := storex.NewBtree(ctx, t3, "sc", storex.Opts{Slot: 4, Unique: true})
+		fmt.Println("t3 open:", err)
+		b3.Add(ctx, 1, "v1")
+		fmt.Println("t2 rollback:", t2.T.Rollback(ctx))
+		if recreate {
+			fmt.Println("recreate:", write(e, "sc", storex.Opts{Slot: 4, Unique: true}, map[int]string{7: "x"}))
+		}
+		fmt.Println("recreate", recreate, "t3 commit:", t3.T.Commit(ctx))
+		show(e, "after")
+		os.RemoveAll(root)
+	}
+}
+
 func main() {
+	if len(os.Args) > 1 && os.Args[1] == "c12b" {
+		c12b()
+		return
+	}
 	if len(os.Args) > 1 && os.Args[1] == "c27b" {
 		c27b()
 		return
